@@ -481,6 +481,19 @@ def closer_table(m: FnModel, rep, rule: str) -> None:
         from ..inline import inline_pure_exprs
         hx = inline_pure_exprs(m.index, f.module, None, helper)
         text += ' ' + src(_Rename({hp[0]: 'S'}).visit(copy.deepcopy(hx))) if hp else src(hx)
+        # module-level helpers the nested helper hands its argument to (`_unique_object_position(
+        # state, object_type)`): read one level through, parameters renamed to the arguments
+        for c_ in ast.walk(hx):
+            if isinstance(c_, ast.Call) and isinstance(c_.func, ast.Name) and \
+                    c_.func.id in f.module.functions and not c_.keywords:
+                g_ = f.module.functions[c_.func.id]
+                gp = [a.arg for a in g_.node.args.args]
+                if len(gp) == len(c_.args):
+                    ren_ = {p_: (src(a_) if isinstance(a_, ast.Name) else p_)
+                            for p_, a_ in zip(gp, c_.args)}
+                    ren_ = {k: ('S' if hp and v == hp[0] else v) for k, v in ren_.items()}
+                    body_ = ast.Module(body=copy.deepcopy(g_.body()), type_ignores=[])
+                    text += ' ' + src(_Rename(ren_).visit(body_))
     # the cells of the state's grid are tested for the requested type, however the scan over the
     # grid is spelled (subscripts of the grid, rows of `grid.objects`, a fused pass)
     import re as _re
@@ -597,7 +610,14 @@ def run(index: RepoIndex, rep) -> None:
         closer_table(m, rep, 'C12.R1')
     m = need(R, 'proportional_to_distance', 'reward')
     vals = [r.value for r in m.returns]
-    okp = len(vals) == 1 and m.returns[0].guard == ('true',) and (
+    # the only way not to reach the single return is a validation raise of an inlined helper
+    from ..guards import atoms_of as _atoms
+    raise_atoms = {src(a) for e_ in m.walk.events if e_.kind == 'raise'
+                   for a in _atoms(e_.guard)}
+    reach_ok = len(m.returns) == 1 and (
+        m.returns[0].guard == ('true',) or
+        all(src(a) in raise_atoms for a in _atoms(m.returns[0].guard)))
+    okp = len(vals) == 1 and reach_ok and (
         vals[0].startswith('reward_per_unit_distance * distance_function(N.agent.position, ')
         or vals[0].endswith(') * reward_per_unit_distance'))
     rep.check(okp, 'C12.R1', REWARD, 'proportional_to_distance', m.func.node.lineno,
